@@ -42,6 +42,9 @@ def run(ctx):
         changed = [rn for rn in rules if _json.dumps(rules[rn], default=str) not in table_before]
         fails.append({"case": {"rules_changed_by_queries": changed[:5]},
                       "what": f"the rule table was altered by the rule-introspection queries (rules {changed[:4]}): it is no longer the shipped table"})
+        # go on with the table as it was shipped (the checks below are about that table)
+        restored = _json.loads(table_before)
+        rules.clear(); rules.update(restored)
     # 1. every known element resolves to an existing, constructible rule
     for e, rn in mappings.items():
         evals += 1
